@@ -682,15 +682,18 @@ archive_read_format_tar_skip(struct archive_read *a)
 
 	tar = (struct tar *)(a->format->data);
 
-	/* Do not consume the hole of a sparse file. */
+	/*
+	 * Every entry of the sparse list stands for bytes stored in the
+	 * archive: GNU maps list data only, and the holes that Solaris
+	 * (SUN.holesdata) lists are stored as well - the read path
+	 * consumes them, so must we.
+	 */
 	request = 0;
 	for (p = tar->sparse_list; p != NULL; p = p->next) {
-		if (!p->hole) {
-			if (p->remaining >= INT64_MAX - request) {
-				return ARCHIVE_FATAL;
-			}
-			request += p->remaining;
+		if (p->remaining >= INT64_MAX - request) {
+			return ARCHIVE_FATAL;
 		}
+		request += p->remaining;
 	}
 	if (request > tar->entry_bytes_remaining)
 		request = tar->entry_bytes_remaining;
